@@ -431,6 +431,18 @@ fn run_all_inspections(
             MetadataWrapper::Link(inner) => inner,
         };
 
+        // an inspection whose command exits with a non-zero status fails
+        // the verification
+        if let Some(return_value) = link_metadata.byproducts.return_value() {
+            if return_value != 0 {
+                return Err(Error::VerificationFailure(format!(
+                    "Inspection '{}' exited with non-zero return value {}",
+                    inspect.name(),
+                    return_value
+                )));
+            }
+        }
+
         inspection_links.insert(inspect.name().to_string(), link_metadata);
     }
 
